@@ -1384,6 +1384,17 @@ def def_shapes(fn):
                                           len(st.targets) == 1):
             sh = ast.unparse(_Blank().visit(copy.deepcopy(st)))
             out.setdefault(t.id, []).append(sh)
+          elif isinstance(st, ast.Assign) and len(st.targets) == 1 and \
+              isinstance(t, ast.Tuple) and isinstance(
+                  st.value, ast.Tuple) and len(t.elts) == len(
+                      st.value.elts) and all(isinstance(e, ast.Name)
+                                             for e in t.elts):
+            # a, b = x, y  defines a = x and b = y
+            for e, v in zip(t.elts, st.value.elts):
+              one = ast.Assign(targets=[ast.Name(id=e.id, ctx=ast.Store())],
+                               value=copy.deepcopy(v), lineno=st.lineno)
+              sh = ast.unparse(_Blank().visit(ast.fix_missing_locations(one)))
+              out.setdefault(e.id, []).append(sh)
         if not isinstance(st, ast.ClassDef):
           walk(st)        # nested closures included: their locals are
                           # locals of the reference function as well
@@ -1391,7 +1402,7 @@ def def_shapes(fn):
   return out
 
 
-def restore_renamed_locals(fn, ref_shapes, known_locals):
+def restore_renamed_locals(fn, ref_shapes, known_locals, ref_flat=None):
   """a reference local that is no longer assigned and a new local whose
   definitions have exactly the same shapes (and no other candidate on either
   side) are the same variable under a new name: the reference name is put
@@ -1422,6 +1433,35 @@ def restore_renamed_locals(fn, ref_shapes, known_locals):
             n.id = l
         done = True
         break
+      if ref_flat and 1 < len(cands) == len(rivals) <= 3:
+        # symmetric locals (lhs_* / rhs_*): the assignment of new names to
+        # reference names that brings the function closest to its reference
+        # shape, when one assignment is strictly the closest
+        import difflib
+        import itertools
+        if any(sum(1 for n in ast.walk(fn) if isinstance(n, ast.Name) and
+                   n.id == u and isinstance(n.ctx, (ast.Store, ast.Del)))
+               != len(sh) for u in cands):
+          continue
+        ref_lines = [x.strip() for x in ref_flat]
+        scored = []
+        for perm in itertools.permutations(sorted(cands)):
+          ren = dict(zip(perm, sorted(rivals)))
+          trial = copy.deepcopy(fn)
+          for n in ast.walk(trial):
+            if isinstance(n, ast.Name) and n.id in ren:
+              n.id = ren[n.id]
+          lines = [x.strip() for x in flat_form(trial)]
+          scored.append((sum(1 for d in difflib.ndiff(ref_lines, lines)
+                             if d[:1] in '+-'), perm))
+        scored.sort(key=lambda t: t[0])
+        if scored[0][0] < scored[1][0]:
+          ren = dict(zip(scored[0][1], sorted(rivals)))
+          for n in ast.walk(fn):
+            if isinstance(n, ast.Name) and n.id in ren:
+              n.id = ren[n.id]
+          done = True
+          break
     if not done:
       break
   return fn
@@ -1874,7 +1914,8 @@ def normalise_module(modname, tree):
       restore_comp_targets(fn, inv[q].get('comps'))
       if before - known:
         restore_loop_targets(fn, inv[q].get('loops'), known)
-        restore_renamed_locals(fn, inv[q].get('defs'), known)
+        restore_renamed_locals(fn, inv[q].get('defs'), known,
+                               inv[q].get('flat'))
         split_tuple_assignments(fn)
         expand_kwargs_dicts(fn, known)
         coalesce_copies(fn, known)
